@@ -61,3 +61,34 @@ pub struct MHyraxState<F: PrimeField> {
     pub randomness: Vec<F>,
     pub mat: MMatrix<F>,
 }
+
+/// Mirror of the crate-private CSC sparse matrix of the Brakedown parameters.
+#[derive(Clone, CanonicalSerialize, CanonicalDeserialize)]
+pub struct MSprsMat<F: PrimeField> {
+    pub n: usize,
+    pub m: usize,
+    pub d: usize,
+    pub ind_ptr: Vec<usize>,
+    pub col_ind: Vec<usize>,
+    pub val: Vec<F>,
+}
+
+/// Mirror of `BrakedownPCParams` (all hash parameters are `()` in the harness configuration).
+#[derive(Clone, CanonicalSerialize, CanonicalDeserialize)]
+pub struct MBrakedownParams<F: PrimeField> {
+    pub sec_param: usize,
+    pub alpha: (usize, usize),
+    pub beta: (usize, usize),
+    pub rho_inv: (usize, usize),
+    pub base_len: usize,
+    pub n: usize,
+    pub m: usize,
+    pub m_ext: usize,
+    pub a_dims: Vec<(usize, usize, usize)>,
+    pub b_dims: Vec<(usize, usize, usize)>,
+    pub start: Vec<usize>,
+    pub end: Vec<usize>,
+    pub a_mats: Vec<MSprsMat<F>>,
+    pub b_mats: Vec<MSprsMat<F>>,
+    pub check_well_formedness: bool,
+}
